@@ -78,6 +78,116 @@ def collisionsOf (g : G) : List (Nat × Decl × FKind × Path) → List Collisio
 def collisions (g : G) (cm cc : GCfg) (ds : List Decl) : List Collision :=
   collisionsOf g (declWrites g cm cc ds)
 
+/-! ## the synthetic name of an inline function type (`Parser.visitFunction`)
+
+An inline function type (`cb: (x: i32) throws -> bool`) has no name of its own; the parser names it
+`'_'.join(['function'] + targets + [signature(p.type_ref) for p in parameters] + [signature(return) or 'void']
+ + (['throws'] + [e.name for e in throwing] if throwing is not None else []))`, where
+`signature(t, depth = 2) = ('_' * depth).join([t.name] + [signature(a, depth + 1) for a in t.parameters])`.
+Every generator derives the file names from this name, so two inline function types of one namespace are written to the
+same files exactly when their names agree. The name encodes: the targets, the parameter and return type *names* (generic
+arguments at increasing separator widths), whether the function returns, and the `throws` clause — bare (`some []`) as well
+as with a list of error domains. It does not encode parameter names, `?` (optionality), the signature of a function-typed
+parameter (`<function>`), and the separator is a character of identifiers (`foo, bar` / `foo_bar`). -/
+
+/-- a type expression as written -/
+inductive TExp where
+  | ref (name : String) (optional : Bool) (args : List TExp)
+  | fn (spelled : String)      -- a function-typed parameter: `type_ref.name = "<function>"`; `spelled` only tells two of them apart
+deriving Repr, Inhabited, BEq
+
+/-- `throwing`: `none` — cannot throw; `some []` — bare `throws` (may throw anything); `some es` — the listed error domains -/
+structure Sig where
+  targets : List String := []          -- the written `+t` list; `[]`: no `function +…` prefix (all target keys)
+  params : List (String × TExp) := []
+  ret : Option TExp := none
+  throws : Option (List String) := none
+deriving Repr, Inhabited, BEq
+
+def repU (n : Nat) : List Char := List.replicate n '_'
+
+/-! the literal parts, as character lists (`String.toList` of a literal does not reduce well inside `simp`) -/
+def wFunction : List Char := ['f', 'u', 'n', 'c', 't', 'i', 'o', 'n']
+def wFnType : List Char := ['<', 'f', 'u', 'n', 'c', 't', 'i', 'o', 'n', '>']     -- `TypeReference.name` of a function-typed parameter
+def wVoid : List Char := ['v', 'o', 'i', 'd']
+def wThrows : List Char := ['t', 'h', 'r', 'o', 'w', 's']
+
+mutual
+/-- `signature(type_ref, depth)` -/
+def sigT : Nat → TExp → List Char
+  | d, .ref n _ args => joinL (repU d) (n.toList :: sigTs (d + 1) args)
+  | _, .fn _ => wFnType
+def sigTs : Nat → List TExp → List (List Char)
+  | _, [] => []
+  | d, t :: ts => sigT d t :: sigTs d ts
+end
+
+def throwsParts : Option (List String) → List (List Char)
+  | none => []
+  | some es => wThrows :: es.map (·.toList)
+
+def effTargets (keys : List String) (s : Sig) : List String := if s.targets.isEmpty then keys else s.targets
+
+def retPart : Option TExp → List Char
+  | some t => sigT 2 t
+  | none => wVoid
+
+/-- the parts in front of the `throws` clause: never empty -/
+def headParts (keys : List String) (s : Sig) : List (List Char) :=
+  wFunction :: ((effTargets keys s).map (·.toList) ++ s.params.map (fun p => sigT 2 p.2) ++ [retPart s.ret])
+
+def anonParts (keys : List String) (s : Sig) : List (List Char) := headParts keys s ++ throwsParts s.throws
+
+def anonNameL (keys : List String) (s : Sig) : List Char := joinL ['_'] (anonParts keys s)
+
+/-- the name `visitFunction` gives the type; `keys` = the target keys of the installed generators, in order -/
+def anonName (keys : List String) (s : Sig) : String := String.ofList (anonNameL keys s)
+
+mutual
+/-- the type expression without `?` and without the signatures of function-typed parameters -/
+def eraseT : TExp → TExp
+  | .ref n _ args => .ref n false (eraseTs args)
+  | .fn _ => .fn ""
+def eraseTs : List TExp → List TExp
+  | [] => []
+  | t :: ts => eraseT t :: eraseTs ts
+end
+
+mutual
+/-- the type expression without the signatures of function-typed parameters -/
+def eraseFn : TExp → TExp
+  | .ref n o args => .ref n o (eraseFns args)
+  | .fn _ => .fn ""
+def eraseFns : List TExp → List TExp
+  | [] => []
+  | t :: ts => eraseFn t :: eraseFns ts
+end
+
+/-- the components in which two signatures differ (each is one dimension of the family generator) -/
+def sigDiff (keys : List String) (a b : Sig) : List String :=
+  let types := fun (s : Sig) => s.params.map (·.2) ++ s.ret.toList
+  (if effTargets keys a != effTargets keys b then ["targets"] else [])
+  ++ (if a.params.length != b.params.length then ["arity"]
+      else if (types a).map eraseT != (types b).map eraseT then
+        (if a.ret.isSome != b.ret.isSome then ["return"]
+         else if a.params.map (eraseT ·.2) != b.params.map (eraseT ·.2) then ["parameter-types"] else ["return"])
+      else if (types a).map eraseFn != (types b).map eraseFn then ["optional"]
+      else if types a != types b then ["nested-function"] else [])
+  ++ (if a.throws != b.throws then ["throws"] else [])
+  ++ (if a.params.map (·.1) != b.params.map (·.1) then ["parameter-names"] else [])
+
+/-- Why two inline function types of one namespace share their files. `model` = the name function of the pinned tree gives
+    both the same name (a Dom clause of the pinned tree, keyed by what the name leaves out); otherwise the names *must* differ
+    and an overwrite is a defect of the name the implementation computed. -/
+def anonCause (keys : List String) (a b : Sig) : String :=
+  let d := sigDiff keys a b
+  if anonName keys a == anonName keys b then
+    (if d.all (· == "parameter-names") then "duplicate-declaration"
+     else if d.all (fun c => c == "parameter-names" || c == "optional") then "anonymous:optional-dropped"
+     else if d.all (fun c => c == "parameter-names" || c == "optional" || c == "nested-function") then "anonymous:nested-function"
+     else "anonymous:join-ambiguity")
+  else "anonymous-signature:" ++ (d.filter (· != "parameter-names")).headD "none"
+
 /-- the check itself: no path receives two different contents -/
 def noOverwrite {κ : Type} [DecidableEq κ] (log : List (String × κ)) : Bool :=
   log.all (fun a => log.all (fun b => a.1 != b.1 || a.2 == b.2))
